@@ -466,8 +466,9 @@ impl AsmParser {
                     (-range..range).contains(&val)
                 }
                 Bits::Unsigned(num_bits) => {
-                    let range = 2_u16.pow(num_bits as u32 - 1);
-                    (0..range).contains(&val)
+                    // Full unsigned range: [0, 2^n)
+                    let range = 2_u32.pow(num_bits as u32);
+                    (0..range).contains(&(val as u32))
                 }
             }
         };
